@@ -136,7 +136,13 @@ func (u *upd) canon() string {
 	}
 	if u.Kind == "MessagesCreated" {
 		fmt.Fprintf(&sb, " ignore=%v", u.Ignore)
-		for _, it := range u.Items {
+		for i, it := range u.Items {
+			if len(u.Items) > 12 && i >= 3 && i < len(u.Items)-2 {
+				if i == 3 {
+					fmt.Fprintf(&sb, " ... (%d items)", len(u.Items))
+				}
+				continue
+			}
 			fmt.Fprintf(&sb, " [%s lit=%s %v in %v]", it.RID, it.Marker, it.Flags, it.Mboxes)
 		}
 	}
